@@ -267,14 +267,32 @@ Example C18_class_tie_examples :
                                   spawn "connection.startOvertimeTimer" "connection.startOvertimeTimer$1"]
                               [site "connection.startOvertimeTimer$1" "connection" "platformSerialNumber" false] []) = 1 /\
   (* a renamed field: sessionManager.operationFuncChan -> opChan (the one field of that struct and type the model misses) *)
-  graph_problems [{| d_struct := nm "sessionManager"; d_field := nm "opChan"; d_type := nm "chansessionOperationFunc" |};
+  graph_problems [{| d_struct := nm "sessionManager"; d_field := nm "opChan"; d_type := nm "chanfunc/1/0" |};
                   {| d_struct := nm "sessionManager"; d_field := nm "keyFunc"; d_type := nm "func/1/2" |}]
                  [call "New" "newSessionManager"] [site "newSessionManager" "sessionManager" "opChan" true] [] = [] /\
-  (* ... but not when two fields of one type are unknown at once *)
-  List.length (graph_problems [{| d_struct := nm "connection"; d_field := nm "inbox"; d_type := nm "chan*Message" |};
-                               {| d_struct := nm "connection"; d_field := nm "redo"; d_type := nm "chan*Message" |};
-                               {| d_struct := nm "connection"; d_field := nm "activeMsgCompleteChan"; d_type := nm "chan*Message" |}]
-                              [call "connection.write" "connection.f"] [site "connection.f" "connection" "inbox" false] []) = 1 /\
+  (* several channels of one type renamed at once: they share a location class, all are resolved *)
+  graph_problems [{| d_struct := nm "connection"; d_field := nm "inbox"; d_type := nm "chan*Message" |};
+                  {| d_struct := nm "connection"; d_field := nm "redo"; d_type := nm "chan*Message" |};
+                  {| d_struct := nm "connection"; d_field := nm "activeMsgCompleteChan"; d_type := nm "chan*Message" |}]
+                 [call "connection.write" "connection.f"]
+                 [site "connection.f" "connection" "inbox" false; site "connection.f" "connection" "redo" false] [] = [] /\
+  (* a genuinely NEW field (more unknown fields of a struct and type than the model misses) is not *)
+  List.length (graph_problems [{| d_struct := nm "connection"; d_field := nm "msgChan"; d_type := nm "chan*Message" |};
+                               {| d_struct := nm "connection"; d_field := nm "reissuePackChan"; d_type := nm "chan*Message" |};
+                               {| d_struct := nm "connection"; d_field := nm "activeMsgCompleteChan"; d_type := nm "chan*Message" |};
+                               {| d_struct := nm "connection"; d_field := nm "extra"; d_type := nm "chan*Message" |}]
+                              [call "connection.write" "connection.f"] [site "connection.f" "connection" "extra" false] []) = 1 /\
+  (* two renamed fields of one type but different location classes (joined: the reader's; filter: immutable) are
+     told apart by who uses them ... *)
+  graph_problems [{| d_struct := nm "connection"; d_field := nm "hasJoined"; d_type := nm "bool" |};
+                  {| d_struct := nm "connection"; d_field := nm "dropParts"; d_type := nm "bool" |}]
+                 [call "connection.reader" "connection.stop"]
+                 [site "connection.reader" "connection" "hasJoined" true; site "connection.stop" "connection" "hasJoined" false;
+                  site "connection.write" "connection" "dropParts" false; site "connection.reader" "connection" "dropParts" false] [] = [] /\
+  (* ... and a renamed field used in a way no candidate allows (the writer writing it) is not resolved *)
+  List.length (graph_problems [{| d_struct := nm "connection"; d_field := nm "hasJoined"; d_type := nm "bool" |};
+                               {| d_struct := nm "connection"; d_field := nm "filter"; d_type := nm "bool" |}]
+                              [] [site "connection.write" "connection" "hasJoined" true] []) = 1 /\
   (* every root of the class tie is a row of the per-function table, with the same class *)
   forallb (fun r => match lookup_fun String.eqb (fst r) fun_table with Some g => gclass_eqb g (snd r) | None => false end) root_table = true.
 Proof. vm_compute. repeat split. Qed.
